@@ -350,12 +350,13 @@ var handlerTable = map[string]func() func(http.Handler) http.Handler{
 	"referer": func() func(http.Handler) http.Handler { return hlog.RefererHandler("referer") },
 	"proto":   func() func(http.Handler) http.Handler { return hlog.ProtoHandler("proto") },
 	"httpver": func() func(http.Handler) http.Handler { return hlog.HTTPVersionHandler("httpver") },
-	"custom":  func() func(http.Handler) http.Handler { return hlog.CustomHeaderHandler("custom", "X-Custom") },
+	// the header is named the way people write it, not in canonical form: HTTP header names are case-insensitive
+	"custom":  func() func(http.Handler) http.Handler { return hlog.CustomHeaderHandler("custom", "x-custom-ID") },
 	"host":    func() func(http.Handler) http.Handler { return hlog.HostHandler("host") },
 	"hostnp":  func() func(http.Handler) http.Handler { return hlog.HostHandler("hostnp", true) },
 	"reqid":   func() func(http.Handler) http.Handler { return hlog.RequestIDHandler("reqid", "X-Req-Id") },
 	"etag":    func() func(http.Handler) http.Handler { return hlog.EtagHandler("etag") },
-	"resphdr": func() func(http.Handler) http.Handler { return hlog.ResponseHeaderHandler("resphdr", "X-Resp") },
+	"resphdr": func() func(http.Handler) http.Handler { return hlog.ResponseHeaderHandler("resphdr", "x-resp-ID") },
 }
 
 func hostOnly(hp string) string {
@@ -387,8 +388,8 @@ func runIsolation(c *ICase) (string, bool) {
 	var omu sync.Mutex
 	final := http.HandlerFunc(func(w http.ResponseWriter, r *http.Request) {
 		me := r.Header.Get("X-Me")
-		w.Header().Set("Etag", `"etag-`+me+`"`)
-		w.Header().Set("X-Resp", "resp-"+me)
+		w.Header().Set("ETag", `"etag-`+me+`"`)
+		w.Header().Set("X-RESP-id", "resp-"+me)
 		arrived.Done()
 		<-release
 		omu.Lock()
@@ -398,7 +399,12 @@ func runIsolation(c *ICase) (string, bool) {
 			e := hlog.FromRequest(r).Info().Str("me", me).Int("i", i)
 			if id, ok := hlog.IDFromRequest(r); ok {
 				e = e.Str("idseen", id.String())
+				// the same id through the other accessor (for code that only has the context)
+				if id2, ok2 := hlog.IDFromCtx(r.Context()); !ok2 || id2 != id {
+					e = e.Str("idseen", "IDFromCtx disagrees: "+id2.String())
+				}
 			}
+
 			e.Msg("handled")
 		}
 		w.WriteHeader(200 + len(me)%5)
@@ -446,7 +452,7 @@ func runIsolation(c *ICase) (string, bool) {
 			r.Proto = rq.Proto
 			r.Header.Set("User-Agent", rq.UA)
 			r.Header.Set("Referer", rq.Referer)
-			r.Header.Set("X-Custom", rq.Custom)
+			r.Header.Set("X-CUSTOM-id", rq.Custom)
 			r.Header.Set("X-Me", rq.ID)
 			if c.SharedCtx {
 				r = r.WithContext(sharedCtx)
